@@ -488,4 +488,52 @@ def formatting_invariants(ctx):
     tv = ctx.unit('core._format_trace_value')
     rets = [n for n in tv.own_nodes() if isinstance(n, ast.Return)]
     ctx.ob(len(rets) == 1 and is_name(rets[0].value), tv, 'every value yields a line (truncated, never omitted)')
+    # asking an arbitrary target for its length may fail in any way: the message must still render
+    tcfg = ctx.cfg(tv)
+    lens = [c for c in calls_in(tv) if is_name(c.func, 'len') and c.args and is_name(c.args[0], tv.params[0])]
+    for c in lens:
+        hs = tcfg.handlers_reached_from(tcfg.node_containing(c))
+        ok = any(handler_covers(tcfg, h, 'Exception') for h in hs)
+        ctx.ob(ok, tv, 'a failing len() of the displayed value cannot break the message: %s' % norm(c),
+               '' if ok else 'handlers: %s' % [src(h.ast.type) if h.ast.type is not None else 'bare' for h in hs], node=c)
     ctx.floor(6)
+
+
+@rule('C05.9')
+def repr_limits(ctx):
+    """the repr used for Target / Spec lines (and for T reprs) lifts *every* size limit of
+    reprlib.Repr: a limit left at its default silently elides part of the displayed value"""
+    import reprlib
+    u = ctx.unit('core._BBRepr.__init__')
+    limits = sorted(k for k, v in vars(reprlib.Repr()).items() if k.startswith('max') and isinstance(v, int))
+    loops = [n for n in u.own_nodes() if isinstance(n, ast.For)]
+    sets = [c for c in calls_in(u) if is_name(c.func, 'setattr') and len(c.args) == 3 and is_name(c.args[0], u.params[0])]
+    ctx.ob(len(loops) == 1 and len(sets) >= 1, u, 'the limits are raised in one loop over attribute names')
+    if len(loops) != 1:
+        return
+    lp = loops[0]
+    it = deref(ctx.cfg(u), ctx.cfg(u).node_of(lp), lp.iter)
+    if isinstance(it, ast.Attribute) and is_name(it.value, u.params[0]) and it.attr != '__dict__':
+        # a class-level tuple of names
+        cls = ctx.cls('core._BBRepr')
+        vals = cls.attrs.get(it.attr, [])
+        it = vals[0] if len(vals) == 1 else it
+    all_attrs = matches(it, '%s.__dict__' % u.params[0]) or matches(it, 'vars(%s)' % u.params[0]) \
+        or matches(it, 'dir(%s)' % u.params[0]) or matches(it, 'list(%s.__dict__)' % u.params[0])
+    if all_attrs:
+        ctx.ob(True, u, 'every attribute of the Repr instance is visited: for %s in %s' % (src(lp.target), norm(lp.iter)))
+    else:
+        names = sorted(e.value for e in it.elts if isinstance(e, ast.Constant)) if isinstance(it, (ast.Tuple, ast.List, ast.Set)) else None
+        missing = [k for k in limits if names is None or k not in names]
+        ctx.ob(not missing, u, 'every size limit of reprlib.Repr is visited: %s' % norm(lp.iter)[:80],
+               '' if not missing else 'limits left at their reprlib default: %s -- values nested deeper / longer than the default '
+               'are elided in traces and reprs' % missing, node=lp)
+    for c in sets:
+        v = c.args[2]
+        ok = isinstance(v, ast.Constant) and isinstance(v.value, int) and v.value >= 1024
+        ctx.ob(ok, u, 'limits are raised to at least 1024: %s' % norm(c), node=c)
+    skips = [n for n in ast.walk(lp) if isinstance(n, ast.If)]
+    for g in skips:
+        ok = 'int' in norm(g.test) or 'hasattr' in norm(g.test)
+        ctx.ob(ok, u, 'only non-integer settings are skipped: %s' % norm(g.test), node=g)
+    ctx.floor(2)
